@@ -116,11 +116,21 @@ func vfGenMVal(rt *rapid.T, typ string, label string) vfMVal {
 }
 
 func vfGenMFilter(rt *rapid.T, stored map[string][]vfMVal) vfMFilter {
+	return vfGenMFilterLike(rt, stored, nil)
+}
+
+// vfGenMFilterLike: with like != nil the filter is a sibling of an earlier filter of the same
+// search: same field, same operator (or another one with the same operand), one operand kept and
+// one changed - the shape that trips caches keyed on part of a filter.
+func vfGenMFilterLike(rt *rapid.T, stored map[string][]vfMVal, like *vfMFilter) vfMFilter {
 	names := append([]string{}, vfMFieldNames...)
 	if rapid.IntRange(0, 7).Draw(rt, "absent_field") == 0 {
 		names = []string{"zzs", "zzn"}
 	}
 	field := rapid.SampledFrom(names).Draw(rt, "field")
+	if like != nil {
+		field = like.Field
+	}
 	typ := vfMFields[field]
 	f := vfMFilter{Field: field}
 	// operand: a stored value, a neighbour of one, or a fresh one
@@ -150,6 +160,41 @@ func vfGenMFilter(rt *rapid.T, stored map[string][]vfMVal) vfMFilter {
 		ops = []string{"eq", "lt", "lte", "gt", "gte", "range", "exists", "not_exists"}
 	}
 	f.Op = rapid.SampledFrom(ops).Draw(rt, "operator")
+	if like != nil {
+		f.Not = like.Not
+		switch how := rapid.IntRange(0, 3).Draw(rt, "sibling_how"); {
+		case like.Op == "range" && how < 3:
+			f.Op = "range"
+			f.V, f.V2 = like.V, like.V2
+			if how == 0 {
+				f.V = operand("lo")
+			} else {
+				f.V2 = operand("hi")
+			}
+			return f
+		case (like.Op == "in" || like.Op == "not_in") && how < 3:
+			f.Op = like.Op
+			f.List = append([]vfMVal{}, like.List...)
+			switch {
+			case how == 0 && len(f.List) > 0:
+				f.List = f.List[:len(f.List)-1]
+			case how == 1 && len(f.List) >= 2 && typ == "s":
+				// the same words as one value: In(f, "a b") versus In(f, "a", "b")
+				f.List = []vfMVal{{T: "s", S: f.List[0].S + " " + f.List[1].S}}
+			default:
+				f.List = append(f.List, *operand("list"))
+			}
+			return f
+		case like.V != nil && like.V2 == nil && f.Op != "range" && f.Op != "in" && f.Op != "not_in" && f.Op != "exists" && f.Op != "not_exists":
+			// another operator (possibly the same) on the same operand, or the negation
+			f.V = like.V
+			if how == 0 {
+				f.Not = !like.Not
+			}
+			return f
+		}
+		f.Not = false
+	}
 	switch f.Op {
 	case "range":
 		f.V, f.V2 = operand("lo"), operand("hi")
@@ -209,6 +254,7 @@ func vfC04Gen(rt *rapid.T) vfC04Case {
 			if op.Entry != "filters" {
 				ng = rapid.IntRange(1, 3).Draw(rt, "n_groups")
 			}
+			var prevFilters []vfMFilter
 			for g := 0; g < ng; g++ {
 				nf := rapid.IntRange(1, 4).Draw(rt, "n_filters")
 				if op.Entry != "builder" && rapid.IntRange(0, 9).Draw(rt, "empty_group") == 0 {
@@ -216,7 +262,13 @@ func vfC04Gen(rt *rapid.T) vfC04Case {
 				}
 				var grp []vfMFilter
 				for j := 0; j < nf; j++ {
-					grp = append(grp, vfGenMFilter(rt, stored))
+					if len(prevFilters) > 0 && rapid.IntRange(0, 3).Draw(rt, "sibling") == 0 {
+						like := prevFilters[rapid.IntRange(0, len(prevFilters)-1).Draw(rt, "sibling_of")]
+						grp = append(grp, vfGenMFilterLike(rt, stored, &like))
+					} else {
+						grp = append(grp, vfGenMFilter(rt, stored))
+					}
+					prevFilters = append(prevFilters, grp[len(grp)-1])
 				}
 				op.Groups = append(op.Groups, grp)
 			}
